@@ -836,7 +836,7 @@ def distribution(cases):
 def run(ctx):
     vlib.regen(ctx, ("consts",))
     vlib.coq_hygiene(ctx)
-    vlib.coq_properties(ctx, "C13", extra_files=("Properties_C13_full.v", "Properties_C13_elim.v", "Properties_C13_eqineq.v", "Properties_C13_solve.v", "Properties_C13_refine.v", "Properties_C13_refine_total.v", "Properties_C10_backends.v", "Properties_C14_perm_sorted.v", "Properties_C10_unique.v"))
+    vlib.coq_properties(ctx, "C13", extra_files=("Properties_C13_full.v", "Properties_C13_elim.v", "Properties_C13_eqineq.v", "Properties_C13_solve.v", "Properties_C13_refine.v", "Properties_C13_refine_total.v", "Properties_C13_refactor_fail.v", "Properties_C10_backends.v", "Properties_C14_perm_sorted.v", "Properties_C10_unique.v"))
     # sparse KKT_FULL assembly: Gallina transcription of create_kkt_matrix / update_kkt_* / update_data vs the real code
     try:
         import kktfull_stage
